@@ -31,7 +31,7 @@ def _one(args):
         shutil.rmtree(d, ignore_errors=True)
 
 
-def run(pid, workers=4):
+def run(pid, workers=8):
     jobs = [(pid, p, True) for p in sorted(glob.glob(os.path.join(VERIF, 'mutants', pid, '*.patch')))]
     jobs += [(pid, p, True) for p in sorted(glob.glob(os.path.join(VERIF, 'seeded', '*', 'patch.diff'))) if _seed_applies(p, pid)]
     jobs += [(pid, p, False) for p in sorted(glob.glob(os.path.join(VERIF, 'benign', '*.patch')))]
